@@ -73,7 +73,7 @@ pub fn prefix_sub(elem: &BigInt, field: &BigInt) -> BigInt {
 
 // 256 bit complement
 pub fn complement_256(elem: &BigInt, field: &BigInt) -> BigInt {
-    let (sign, mut bit_repr) = bit_representation(elem);
+    let (_, mut bit_repr) = bit_representation(elem);
     while bit_repr.len() > 256 {
         bit_repr.pop();
     }
@@ -83,7 +83,7 @@ pub fn complement_256(elem: &BigInt, field: &BigInt) -> BigInt {
     for bit in &mut bit_repr {
         *bit = u8::from(*bit == 0);
     }
-    let cp = BigInt::from_radix_le(sign, &bit_repr, 2).unwrap();
+    let cp = BigInt::from_radix_le(Sign::Plus, &bit_repr, 2).unwrap();
     modulus(&cp, field)
 }
 
